@@ -612,11 +612,6 @@ private:
       if (!transit_event->macro_metadata->has_named_args())
       {
         _populate_formatted_log_message(transit_event, transit_event->macro_metadata->message_format());
-
-        if (transit_event->macro_metadata->event() == MacroMetadata::Event::LogWithRuntimeMetadata)
-        {
-          _apply_runtime_metadata(transit_event);
-        }
       }
       else
       {
@@ -649,6 +644,19 @@ private:
           _populate_formatted_log_message(transit_event, message_format.data());
           _populate_formatted_named_args(transit_event, arg_names);
         }
+      }
+
+      if (transit_event->macro_metadata->event() == MacroMetadata::Event::LogWithRuntimeMetadata)
+      {
+        if (transit_event->macro_metadata->has_named_args() && transit_event->named_args &&
+            (transit_event->named_args->size() >= 3))
+        {
+          // the last three arguments are the file, line and function that were passed at runtime,
+          // they are not named arguments of the statement
+          transit_event->named_args->resize(transit_event->named_args->size() - 3);
+        }
+
+        _apply_runtime_metadata(transit_event);
       }
     }
     else if (transit_event->macro_metadata->event() == MacroMetadata::Event::Flush)
